@@ -76,9 +76,14 @@ K_ISO_DAG = "c06:dag-fit-drops-isolated-nodes"
 K_LAT_DAG = "c06:dag-fit-drops-latents"
 K_UPD_ORDER = "c06:fit-update-prior-in-old-parent-order"
 K_EM_1COL = "c06:em-single-observed-column-keyerror"
+# closed-form estimates are ratios of positive sums: both sides carry a relative rounding error of a few
+# hundred ulp whatever the magnitudes of weights / pseudo counts, so the comparison is relative
+REL_TOL = dict(atol=1e-300, rtol=1e-9)
 
 NAME_POOL = ["a", "b", "c", "d", "X", "Y", "Zed", "x1", "x10", "x2", "Ab", "aB", "n_0", "m", "w", "K", "q9"]
-STR_POOL = ["lo", "hi", "mid", "Z", "a", "B", "10", "9", "yes", "no", "s_1", "s_0", "Up", "dn"]
+STR_POOL = ["lo", "hi", "mid", "Z", "a", "B", "10", "9", "yes", "no", "s_1", "s_0", "Up", "dn", "", "0"]
+INT_POOL = list(range(-3, 40)) + [100, 255, 1000, -17, 12345, 70000]
+EXTREME = [1e-9, 1e-6, 0.37, 1.0, 2.5, 1e3, 1e6]
 LAT_POOL = ["L", "H", "lat", "U"]
 
 
@@ -93,7 +98,7 @@ def _states(rng, k, kind, n_extra):
         vals = list(range(1, tot + 1))
         return _shuf(rng, vals[:k]), vals[k:]
     if kind in ("gap", "catint", "objint"):
-        vals = rng.sample(range(-3, 40), tot)
+        vals = rng.sample(INT_POOL, tot)
         return vals[:k], vals[k:]
     vals = rng.sample(STR_POOL, tot)
     return vals[:k], vals[k:]
@@ -116,7 +121,8 @@ def gen_world(rng, n, cards, max_parents=3, n_rows=None, zeros=True, kinds=None,
         kind[v] = k0 if mono else rng.choice(kinds)
         card[v] = rng.choice(cards)
         T[v], extra[v] = _states(rng, card[v], kind[v], rng.choice([0, 0, 1, 2]))
-        npdtype[v] = rng.choice(["int64", "int64", "int32", "int8"])
+        big = max([abs(x) for x in T[v] + extra[v] if isinstance(x, int)] or [0])
+        npdtype[v] = rng.choice(["int64", "int64", "int32"] + (["int8"] if big < 128 else []))
         # category order is arbitrary; unused categories in some columns
         cats[v] = _shuf(rng, T[v] + (extra[v][:1] if rng.random() < 0.3 else []))
         ordered[v] = rng.random() < 0.25
@@ -157,6 +163,8 @@ def sample_rows(rng, w, n_rows):
 
 def gen_rows_count(rng, tier):
     r = rng.random()
+    if r < 0.05:
+        return rng.choice([1, 1, 2, 3])          # single-row / tiny data
     if r < 0.25:
         return rng.randint(5, 15)
     if r < 0.8:
@@ -166,7 +174,7 @@ def gen_rows_count(rng, tier):
 
 def gen_declared(rng, w, obs, full=False, p=0.45):
     if not full and rng.random() >= p:
-        return None
+        return {} if rng.random() < 0.08 else None      # empty dict: every state list is collected from the data
     dec = {}
     for v in obs:
         if full or rng.random() < 0.8:
@@ -175,20 +183,41 @@ def gen_declared(rng, w, obs, full=False, p=0.45):
 
 
 def gen_weights(rng, n, p=0.25):
+    """`_weight` column: small integers, non-integers, zeros, magnitudes 1e-9..1e6 mixed in one column,
+    all tiny, all huge."""
     if rng.random() >= p:
         return None
     mode = rng.random()
     ws = []
     for _ in range(n):
-        if mode < 0.3:
+        if mode < 0.2:
             ws.append(float(rng.randint(1, 4)))
-        else:
+        elif mode < 0.7:
             ws.append(round(rng.uniform(0.05, 3.0), 3))
-        if mode > 0.8 and rng.random() < 0.15:
-            ws[-1] = 0.0
+            if mode > 0.55 and rng.random() < 0.15:
+                ws[-1] = 0.0
+        elif mode < 0.86:
+            ws.append(rng.choice(EXTREME))
+            if rng.random() < 0.05:
+                ws[-1] = 0.0
+        elif mode < 0.93:
+            ws.append(1e-9 * rng.randint(1, 9))
+        else:
+            ws.append(round(1e6 * rng.uniform(0.5, 2.0), 2))
     if sum(ws) == 0:
         ws[0] = 1.0
     return ws
+
+
+def all_configs_seen(spec, S, rows, weighted):
+    """True iff every parent configuration of every node has a positive (weighted) count in `rows`."""
+    spa = sorted_parents(spec)
+    for v in spec["nodes"]:
+        N = counts(spec, v, spa[v], rows, weighted)
+        for cfg in itertools.product(*[S[p] for p in spa[v]]):
+            if sum(N.get((c, cfg), 0.0) for c in S[v]) <= 0:
+                return False
+    return True
 
 
 def eff_states(spec):
@@ -205,25 +234,35 @@ def sorted_parents(spec):
     return {v: sorted(par[v]) for v in spec["nodes"]}
 
 
-def gen_prior(rng, spec, S):
-    r = rng.random()
+ESS = [0.5, 1, 5, 10, 3, 2.5, 7.25, 1e-6, 1e6]
+PC = [0.5, 1, 2, 3.5, 0.01, 1e-6, 1e6, 2.0]
+PC_TAB = [0.1, 0.5, 1.0, 2.0, 4.0, 7.5]
+
+
+def gen_prior(rng, spec, S, bayes_only=False, allow_zero=False):
+    """allow_zero: every parent configuration is observed, so a zero prior (ess / pseudo count 0, 0.0) still
+    gives a defined posterior (= MLE)."""
+    r = rng.uniform(0.3, 1.0) if bayes_only else rng.random()
+    zero = [0, 0.0] if allow_zero else []
     if r < 0.3:
         return {"type": "mle"}
     if r < 0.42:
         return {"type": "K2"}
     if r < 0.66:
         if rng.random() < 0.3:
-            return {"type": "BDeu", "ess": {v: rng.choice([0.5, 1, 5, 10, 2.5]) for v in spec["nodes"]}}
-        return {"type": "BDeu", "ess": rng.choice([0.5, 1, 5, 10, 3])}
+            return {"type": "BDeu", "ess": {v: rng.choice(ESS + zero) for v in spec["nodes"]}}
+        return {"type": "BDeu", "ess": rng.choice(ESS + zero + zero)}
     if r < 0.78:
-        return {"type": "dirichlet", "pc": rng.choice([0.5, 1, 2, 3.5, 0.01])}
+        return {"type": "dirichlet", "pc": rng.choice(PC + zero + zero)}
     spa = sorted_parents(spec)
     tables = {}
+    pool = PC_TAB if rng.random() < 0.6 else EXTREME         # magnitudes mixed within one table
+    ints = rng.random() < 0.15                                # integer-typed entries
     for v in spec["nodes"]:
         q = 1
         for p in spa[v]:
             q *= len(S[p])
-        tables[v] = [[rng.choice([0.1, 0.5, 1.0, 2.0, 4.0, 7.5]) for _ in range(q)] for _ in range(len(S[v]))]
+        tables[v] = [[(rng.randint(1, 9) if ints else rng.choice(pool)) for _ in range(q)] for _ in range(len(S[v]))]
     return {"type": "dirichlet", "tables": tables}
 
 
@@ -238,7 +277,10 @@ def gen_fit(rng, tier):
     spec = dict(w, mode="fit", obs=list(w["nodes"]), latents=[], data=data, n_rows=n_rows,
                 declared=gen_declared(rng, w, w["nodes"]), weights=gen_weights(rng, n_rows))
     S = eff_states(spec)
-    spec["prior"] = gen_prior(rng, spec, S)
+    # a `_weight` column may be present and still not be asked for
+    spec["weighted"] = spec["weights"] is not None and rng.random() < 0.85
+    spec["prior"] = gen_prior(rng, spec, S,
+                              allow_zero=all_configs_seen(spec, S, range(n_rows), spec["weighted"]))
     spec["perm_rows"] = _shuf(rng, range(n_rows))
     spec["perm_cols"] = _shuf(rng, w["nodes"])
     spec["perm_nodes"] = _shuf(rng, w["nodes"])
@@ -281,7 +323,12 @@ def gen_update(rng, tier):
     else:
         chunks = [[first, n_rows]]
     spec["chunks"] = chunks
-    spec["n_prev"] = [rng.choice([None, None, 1, 7, 50, 1000]) for _ in chunks]
+    spec["n_prev"] = []
+    for lo, hi in chunks:
+        np_ = rng.choice([None, None, None, 1, 7, 50, 1000, 2.5, 1e-6, 1e6, 0, 0.0])
+        if np_ is not None and np_ == 0 and not all_configs_seen(spec, S, range(lo, hi), False):
+            np_ = 1                    # a zero prior leaves unseen configurations undefined (0/0)
+        spec["n_prev"].append(np_)
     spec["perm_cols"] = _shuf(rng, w["nodes"])
     spec["perm_seed"] = rng.randrange(10 ** 6)
     spec["perm_nodes"] = _shuf(rng, w["nodes"])
@@ -358,7 +405,7 @@ def gen_em(rng, tier):
     spec["init_mode"] = init_mode
     spec["latent_card"] = None if (lats and all(lat_card[L] == 2 for L in lats) and rng.random() < 0.4) else lat_card
     spec["max_iter"] = rng.randint(1, 8 if thorough else 6)
-    spec["seed"] = rng.randrange(1000)
+    spec["seed"] = 0 if rng.random() < 0.1 else rng.randrange(1000)
     spec["atol"] = rng.choice([1e-8, 1e-8, 1e-12])
     spec["route"] = rng.choice(["direct", "direct", "direct", "fit", "fit", "fit", "fit", "dagfit"])
     spec["perm_nodes"] = _shuf(rng, w["nodes"])
@@ -403,7 +450,7 @@ def closed_form(v, pa, S, N, alpha):
         else:
             a = [alpha(i, j, c, cfg) for i, c in enumerate(sv)]
             den = tot + sum(a)
-            vals = [(x + y) / den for x, y in zip(n, a)]
+            vals = [(x + y) / den for x, y in zip(n, a)] if den > 0 else [float("nan")] * r
         for c, val in zip(sv, vals):
             out[frozenset([(v, c)] + list(zip(pa, cfg)))] = val
     return out, unseen
@@ -447,7 +494,8 @@ def isolated_nodes(spec):
 
 
 # --------------------------------------------------------------------------- building objects
-def make_frame(spec, cols, rows, weighted):
+def make_frame(spec, cols, rows, with_weight):
+    """The caller's frame; `with_weight`: include the `_weight` column when the spec has weights."""
     import numpy as np
     import pandas as pd
     d = {}
@@ -461,7 +509,7 @@ def make_frame(spec, cols, rows, weighted):
         else:
             d[v] = pd.Series(vals, dtype=object)
     df = pd.DataFrame(d, columns=list(cols))
-    if weighted and spec.get("weights") is not None:
+    if with_weight and spec.get("weights") is not None:
         df["_weight"] = [float(spec["weights"][i]) for i in rows]
     return df
 
@@ -546,7 +594,7 @@ def compare_node(ctx, cpd, v, parents, expect, label):
         got = named_of(cpd)
     except Exception as e:
         return f"{label}: cannot read CPD of {v!r}: {type(e).__name__}: {e}"
-    diff = oracle.named_close(got, expect, **ctx.tol())
+    diff = oracle.named_close(got, expect, **REL_TOL)
     if diff:
         return f"{label}: P({v!r} | {sorted(parents)!r}) {diff}"
     return None
@@ -602,7 +650,7 @@ def run_fit(spec, ctx):
     from pgmpy.base import DAG
     from pgmpy.estimators import BayesianEstimator, MaximumLikelihoodEstimator
     S = eff_states(spec)
-    weighted = spec["weights"] is not None
+    weighted = bool(spec.get("weighted", spec["weights"] is not None))
     rows = list(range(spec["n_rows"]))
     expect, unseen = expected_fit(spec, S, rows, weighted)
     bayes = spec["prior"]["type"] != "mle"
@@ -627,6 +675,22 @@ def run_fit(spec, ctx):
         ctx.feature("unseen-parent-config")
     if weighted:
         ctx.feature("weighted")
+        if max(spec["weights"]) >= 1e3 or 0 < min(x for x in spec["weights"] if x > 0) <= 1e-6:
+            ctx.feature("weights-extreme")
+    elif spec["weights"] is not None:
+        ctx.feature("weight-column-unused")
+    if spec["n_rows"] <= 2:
+        ctx.feature("rows<=2")
+    if declared == {}:
+        ctx.feature("declared-empty-dict")
+    pr = spec["prior"]
+    hyper = ([pr["pc"]] if "pc" in pr else []) + (list(pr["ess"].values()) if isinstance(pr.get("ess"), dict)
+                                                 else [pr["ess"]] if "ess" in pr else [])
+    if any(h == 0 for h in hyper):
+        ctx.feature("prior-zero")
+    if any(h != 0 and (h <= 1e-6 or h >= 1e6) for h in hyper) or \
+            ("tables" in pr and any(x >= 1e3 or x <= 1e-6 for t in pr["tables"].values() for row in t for x in row)):
+        ctx.feature("prior-extreme")
     if iso:
         ctx.feature("isolated-node")
     if any(len(S[v]) == 1 for v in S):
@@ -638,7 +702,7 @@ def run_fit(spec, ctx):
         cols = spec["perm_cols"] if route == "cols" else spec["nodes"]
         rws = spec["perm_rows"] if route == "rows" else rows
         nodes, edges = (spec["perm_nodes"], spec["perm_edges"]) if route in ("edges", "dag") else (None, None)
-        df = make_frame(spec, cols, rws, weighted)
+        df = make_frame(spec, cols, rws, True)
         label = f"route={route} estimator={Est.__name__} prior={spec['prior']['type']}"
         if route in ("bn", "rows", "cols", "edges", "dag"):
             model = make_model(spec, nodes, edges, cls=DAG if route == "dag" else None)
